@@ -11,6 +11,9 @@ import dispatch
 from .c17 import cv, agg_field, variant_of
 
 
+REPLY_LEN = 16      # RecordHeader::LEN + body LEN of UnknownType / EndRequest records (C17 R17.3 decides the encoders)
+
+
 class Need(Exception):
     """The oracle needs an atom that the code path did not test."""
     def __init__(self, atom):
@@ -352,6 +355,13 @@ def outcome_stream(d):
         ro = w.get("res.output")
         out['counted'] = ro is not None and any(x[0] == 'call' and x[1].endswith("::len") for x in ir.walk(ro)) and any(
             x[0] == 'call' and x[1].endswith("::to_record") for x in ir.walk(ro))
+        if ro is not None and not out['counted']:
+            # the same amount as a constant: every generated reply is one unpadded header plus one fixed body
+            pe = ir.peel(ro, casts=False)
+            if pe[0] == 'field' and ir.peel(pe[1])[0] == 'bin':
+                pe = ir.peel(pe[1])
+            if pe[0] == 'bin' and pe[1].startswith('Add') and cv(pe[3]) == REPLY_LEN * len(d.replies):
+                out['counted'] = True
     return out
 
 
